@@ -319,11 +319,11 @@ Qed.
 Lemma group_allocs_length al : length (group_allocs al) = 3%nat.
 Proof. reflexivity. Qed.
 
-Lemma allocate_done_wf ls infos rq da :
+Lemma allocate_done_wf kind ls infos rq da :
   (forall t, lgood (ledger_of ls t)) -> raw_nonneg rq = true ->
-  allocate ls infos rq = ADone da -> dallocs_wf da = true.
+  allocate kind ls infos rq = ADone da -> dallocs_wf da = true.
 Proof.
-  intros G NN H. pose proof (allocate_done ls infos rq da G H) as D.
+  intros G NN H. pose proof (allocate_done kind ls infos rq da G H) as D.
   unfold dallocs_wf. apply forallb_forall. intros t Ht.
   assert (Ht3 : (t < 3)%nat) by (cbn in Ht; lia).
   specialize (D t Ht3). unfold type_done in D.
@@ -364,13 +364,13 @@ Qed.
 Lemma step_good s o :
   ugood s -> ugood (fst (step s o)) /\ (wgood s -> op_wf o = true -> wgood (fst (step s o))).
 Proof.
-  intros U. destruct o as [inv|p rq|p|p|p|p al| |p al|p|p rq vs]; cbn [step].
+  intros U. destruct o as [inv|p rq|p|p|p|p al| |p al|p|p rq vs|kind]; cbn [step].
   - (* refresh *) cbn [fst]. split.
     + eapply ugood_refresh; eauto; reflexivity.
     + intros W Hwf. eapply wgood_refresh; eauto; try reflexivity. now apply healthy_nonneg.
   - (* schedule *)
     destruct (lookup p (envrec s)) as [x|] eqn:L; [cbn [fst]; auto|].
-    destruct (allocate (ledgers s) (infos s) rq) as [|code|da] eqn:A; cbn [fst]; auto.
+    destruct (allocate (nkind s) (ledgers s) (infos s) rq) as [|code|da] eqn:A; cbn [fst]; auto.
     split.
     + eapply ugood_add; eauto; reflexivity.
     + intros W Hwf. eapply wgood_add; eauto; try reflexivity.
@@ -402,7 +402,7 @@ Proof.
     + intros W _. eapply wgood_refresh; eauto; try reflexivity. apply unhealthy_nonneg.
   - (* pod update *)
     destruct (lookup p (envrec s)) as [[old b]|] eqn:L; cbn [fst]; auto.
-    set (s1 := mkState (cache_update false (ledgers s) p old) (infos s) (remove_key p (envrec s)) (envlast s)).
+    set (s1 := mkState (cache_update false (ledgers s) p old) (infos s) (remove_key p (envrec s)) (envlast s) (nkind s)).
     assert (U1 : ugood s1) by (eapply ugood_rm; eauto; reflexivity).
     assert (L1 : lookup p (envrec s1) = None).
     { unfold s1. cbn [envrec]. rewrite lookup_remove_key. now rewrite Z.eqb_refl. }
@@ -418,4 +418,7 @@ Proof.
     + eapply ugood_rm; eauto; reflexivity.
     + intros W _. eapply wgood_rm; eauto; reflexivity.
   - (* preemption dry-run *) cbn [fst]. auto.
+  - (* node labels *) cbn [fst]. split.
+    + apply (ugood_ext s); auto; try reflexivity. apply U.
+    + intros W _. apply (wgood_ext s); auto; reflexivity.
 Qed.
